@@ -131,6 +131,10 @@ def int_matrix():
         out.append(f"fn main() {{ let a = {a}; println(-a, !a, a.to_string(), ?a); }}")
     for a, b in itertools.product(["0", "1", "2", "(-2)", "3", "7", "(-1)"], ["0", "1", "2", "3", "10", "31"]):
         out.append(f"fn main() {{ let a = {a}; let b = {b}; println(a ** b); }}")
+    # negative exponents: a reciprocal truncates to 0 unless the base is 1 or -1 (parity of the exponent as a float64)
+    for a, b in itertools.product(["1", "2", "(-2)", "3", "7", "(-1)", "9223372036854775807", "(-9223372036854775807 - 1)"],
+                                  ["(-1)", "(-2)", "(-3)", "(-64)", "(-9007199254740993)", "(-9223372036854775807)", "(-9223372036854775807 - 1)"]):
+        out.append(f"fn main() {{ let a = {a}; let b = {b}; println(a ** b); a **= b; println(a); }}")
     return out
 
 
